@@ -75,16 +75,25 @@ func (c11) Gen(r *sim.Rand, c *sim.Case, tier string) {
 		}
 	}
 	ops = sprinkleSaves(r, ops, 0, r.Range(2, 7), 0.4, 0)
-	if r.Chance(0.3) {
-		// the document is rendered as a template; the render (slot 1) must carry the same definitions
-		data := &world.TData{Vars: map[string]any{"name": "N"}}
-		ops = append(ops, sim.Op{K: "tpl.render", D: 1, I: []int{0, 1, 0}, S: []sim.Str{sim.Str(data.JSON())}}, sim.Op{K: "save", D: 1, I: []int{r.Intn(2)}})
-		if r.Bool() {
+	if r.Chance(0.35) {
+		// the document is rendered as a template, twice from the one cached template; each render must carry the
+		// same definitions and is then given header/footer calls of its own; the renders are saved only afterwards
+		nr := r.Range(1, 2)
+		for d := 1; d <= nr; d++ {
+			data := &world.TData{Vars: map[string]any{"name": "N"}}
+			ops = append(ops, sim.Op{K: "tpl.render", D: d, I: []int{0, 1, 0}, S: []sim.Str{sim.Str(data.JSON())}})
+		}
+		var lists [][]sim.Op
+		for d := 1; d <= nr; d++ {
 			g1 := world.NewGen(r.Fork())
 			g1.Alpha, g1.Fam = []int{0}, world.FHF|world.FBody
-			ops = append(ops, g1.DocOps(1, r.Range(1, 4))...)
-			ops = append(ops, sim.Op{K: "save", D: 1, I: []int{r.Intn(2)}}, sim.Op{K: "save", D: 0})
+			lists = append(lists, g1.DocOps(d, r.Range(1, 4)))
 		}
+		ops = append(ops, interleave(r, lists...)...)
+		for d := nr; d >= 1; d-- {
+			ops = append(ops, sim.Op{K: "save", D: d, I: []int{r.Intn(2)}})
+		}
+		ops = append(ops, sim.Op{K: "save", D: 0})
 	}
 	c.Tasks = [][]sim.Op{ops}
 	c.Order = orderPolicy(r)
